@@ -51,6 +51,10 @@ CLAIMED = {
             '(dim=<function>): on every path the score is proved equal to the minimum over all enumerated monotone couplings and the returned matching is '
             'proved to be such a coupling accumulating exactly the score.',
             'DESIGN.md#c18', 'sizes <= 3x3 (FDTW n1*n2 <= 6 in quick), p in {1, inf} everywhere, p = 2 on small free matrices', ''),
+    'C20': ('Bounded model checking of proj_segment / proj_polyligne / mapOnTrack with the segment directions taken from a catalogue, a symbolic translation and a symbolic query point '
+            '(also constrained onto the segment and onto its ends): per path the returned point is proved to lie on the indexed segment, the distance to equal the point distance, and no point '
+            'S(mu), mu in [0,1] (free variable of the negated query) of any leg to be closer. Vertical segments are a recorded known finding.',
+            'DESIGN.md#c20', '10 catalogue directions, 8 catalogue polylines (quick: 5), coordinates in [-100,100], tolerance 1e-9', ''),
 }
 
 NOT_YET = {}
